@@ -101,6 +101,19 @@ pub fn build_template(t: &str, src: &Path, dst: &Path, names: &[&str]) {
                 add(format!("{n}/deeper/inner-A"), 'A', 2);
             }
         }
+        "T7" => {
+            // three transfers for the thread-level exploration: overwrite, new file in a new directory, same-mtime resize
+            add("a-Z".into(), 'Z', 9);
+            add("sub2/b-A".into(), 'A', 5);
+            add("c-Y".into(), 'Y', 7);
+            add("same-S".into(), 'S', 4);
+        }
+        "T8" => {
+            for (k, n) in ["a-Z", "sub2/b-A", "c-Y", "sub2/d-M"].iter().enumerate() {
+                add((*n).to_string(), n.chars().last().unwrap_or('A'), 6 + k);
+            }
+            add("same-S".into(), 'S', 4);
+        }
         "T5" => {
             for n in names.iter().take(4) {
                 add(format!("{n}-Z"), 'Z', 9);
@@ -108,6 +121,12 @@ pub fn build_template(t: &str, src: &Path, dst: &Path, names: &[&str]) {
             add("same-S".into(), 'S', 4);
         }
         _ => {}
+    }
+    if t == "T7" || t == "T8" {
+        // minimal tail: one destination-only file (deleted with --delete) and one in a directory of its own
+        put_file(dst, "only-dst", b"dst only", 1_400_000_000, 0);
+        put_file(dst, "sub/only-dst-2", b"dst only 2", 1_400_000_001, 0);
+        return;
     }
     // a source mtime in the last nanosecond before the next second, destination equal to the whole second
     put_file(src, "edge-second-S", b"edge", 1_600_300_000, 999_999_999);
@@ -401,6 +420,15 @@ pub fn run_c04(ctx: &Ctx) -> ! {
     if let Some(rp) = &ctx.replay {
         let v: Value = serde_json::from_slice(&std::fs::read(rp).unwrap_or_default()).unwrap_or(Value::Null);
         let want = v["detail"]["config"].as_str().unwrap_or("").to_string();
+        if v["detail"]["tsched"].is_object() {
+            let template = if want.contains(" T8 ") { "T8" } else { "T7" };
+            let jobs = want.split("jobs=").nth(1).and_then(|x| x.split(' ').next()).and_then(|x| x.parse().ok()).unwrap_or(2);
+            let c = Cfg { dir: "local", delete: true, exclude: "", jobs, verbose: false, template };
+            let vs = crate::e6::replay_local(&c, &["a"], &v["detail"]);
+            let mut rep = Report::new("exploration");
+            rep.set("evaluations", 2u64).set("distinct_nontrivial", 1u64).set("rule", "replay of one recorded thread schedule, executed twice").set("samples", json!([v["detail"]["tsched"]["choices"]])).set("exhaustive", false);
+            finish(ctx, rep, vs);
+        }
         cfgs = configs(true).into_iter().chain(configs(false)).filter(|c| cfg_name(c) == want).take(1).collect();
     }
     if let Ok(f) = std::env::var("VH_ONLY") {
@@ -481,6 +509,30 @@ pub fn run_c04(ctx: &Ctx) -> ! {
         violations.extend(order_part(thorough, &evals));
     }
     let order_runs = evals.load(Ordering::Relaxed) - orders_before;
+    // local direction: every interleaving (within a preemption bound) of the parallel transfers' libc calls,
+    // decided by the thread-level scheduler (E6) on the real multi-threaded process
+    let mut tsched_rows: Vec<Value> = Vec::new();
+    let mut tsched_schedules = 0u64;
+    let mut tsched_steps = 0u64;
+    if std::env::var("VH_NO_TSCHED").is_err() {
+        // (template, jobs, tokio workers, preemption bound, cap)
+        let systems: Vec<(&'static str, usize, usize, u32, u64)> = if thorough {
+            vec![("T7", 3, 4, 3, 60_000), ("T7", 2, 1, 3, 60_000), ("T7", 3, 1, 2, 60_000), ("T8", 4, 4, 1, 60_000), ("T8", 2, 1, 2, 60_000)]
+        } else {
+            vec![("T7", 3, 4, 1, 3_000), ("T7", 2, 1, 1, 3_000)]
+        };
+        for (template, jobs, workers, bound, cap) in systems {
+            let c = Cfg { dir: "local", delete: true, exclude: "", jobs, verbose: false, template };
+            let out = crate::e6::explore_local(&c, &["a"], bound, workers, cap, 16);
+            tsched_schedules += out.schedules;
+            tsched_steps += out.steps;
+            evals.fetch_add(out.schedules, Ordering::Relaxed);
+            tsched_rows.push(json!({"config": cfg_name(&c), "tokio_workers": workers, "preemption_bound": bound, "schedules": out.schedules, "capped": out.capped, "scheduling_steps": out.steps, "max_points": out.max_points, "max_simultaneously_announced_calls": out.max_parked, "threads_seen": out.threads, "distinct_outcomes": out.outcomes.len(), "distinct_completion_orders": out.completion_orders.len()}));
+            let mut vs = out.violations;
+            vs.sort_by_key(|v| v.detail["tsched"]["choices"].as_array().map_or(0, Vec::len));
+            violations.extend(vs.into_iter().take(2));
+        }
+    }
     let mut per: std::collections::HashMap<String, usize> = Default::default();
     violations.retain(|v| {
         let c = per.entry(v.sig.to_string()).or_insert(0);
@@ -492,7 +544,10 @@ pub fn run_c04(ctx: &Ctx) -> ! {
         .set("distinct_nontrivial", changed.load(Ordering::Relaxed))
         .set("configurations", cfgs.len() as u64)
         .set("ordered_runs", order_runs)
-        .set("rule", "configuration = direction {local, push, pull over the ssh stand-in} x --delete x exclude {none, *.x, 'sk ip'} x --jobs {1,2,4} x --verbose x tree template (19 special names — spaces, quotes, backslash, $, $(…), glob characters, newline, tab, leading dashes, unicode, dot files, ;, & — each in the 4 destination states absent / same size+second / different size / different mtime; the names as directory names; nesting depth 3 with empty files; destination-only, excluded and stale files) ; after each run a full recursive snapshot diff (bytes, ns mtimes, inodes, directories) of source, destination and the remote home is compared with the reference planner's transfer / skip / delete sets and the Plan / Complete lines; plus file-vs-directory clashes and every completion order of K = 3 (and 4) parallel SSH transfers; non-trivial = destination entries that changed, summed")
+        .set("thread_schedules_local", tsched_schedules)
+        .set("thread_scheduling_steps_local", tsched_steps)
+        .set("thread_level_exploration", Value::Array(tsched_rows))
+        .set("rule", "configuration = direction {local, push, pull over the ssh stand-in} x --delete x exclude {none, *.x, 'sk ip'} x --jobs {1,2,4} x --verbose x tree template (19 special names — spaces, quotes, backslash, $, $(…), glob characters, newline, tab, leading dashes, unicode, dot files, ;, & — each in the 4 destination states absent / same size+second / different size / different mtime; the names as directory names; nesting depth 3 with empty files; destination-only, excluded and stale files) ; after each run a full recursive snapshot diff (bytes, ns mtimes, inodes, directories) of source, destination and the remote home is compared with the reference planner's transfer / skip / delete sets and the Plan / Complete lines; plus file-vs-directory clashes and every completion order of K = 3 (and 4) parallel SSH transfers; for the LOCAL direction a thread-level controlled scheduler (interposer mode tsched) parks every thread of the real copia process before each libc call on a path under SRC or DST and all interleavings of the 3 (4) transfers' calls within the stated preemption bound are executed (thread_level_exploration); non-trivial = destination entries that changed, summed")
         .set("samples", json!([{"config":"push T1 delete=true exclude=\"*.x\" jobs=2 verbose=false"},{"config":"pull T3 delete=false exclude=\"\" jobs=4 verbose=false"}]))
         .set("exhaustive", true);
     rep.assume("SSH through a stand-in (bash -c with OpenSSH argument joining; remote login shell assumed bash); tmpfs; run as root; mtimes at or after the epoch; names ending .copia-tmp reserved");
